@@ -86,6 +86,10 @@ func scanSpecDirs(dirs []string, scanFn scanSpecFunc) error {
 			// first call from Walk is for dir itself, others we skip
 			if info.IsDir() {
 				if path == dir {
+					if err != nil {
+						// the directory cannot be read: report it like any other failure
+						return scanFn(path, priority, nil, err)
+					}
 					return nil
 				}
 				return filepath.SkipDir
